@@ -158,3 +158,50 @@ func ZZ_C02_UsageRecorded() {
 		vx.Assert("cause for closing is normal release", rec != nil && rec.ChargingFunctionRecord != nil && rec.ChargingFunctionRecord.CauseForRecClosing.Value == 0)
 	}
 }
+
+// C02 across a record split: a session whose record fills up (usage entries
+// made long through one variable-length member) is continued in a partial
+// record; entries reported before, at and after the split are each recorded
+// exactly once, unchanged and in report order over the session's records, and
+// the closed record keeps its entries.
+//
+//gosx:property=C02 tier=quick unwind=40 timeout=30000 p.steps=4 p.steps.thorough=5
+func ZZ_C02_AcrossSplit() {
+	p := zzSetup()
+	zzAccount(zzSupi, 1, 1000000, 10)
+	ref, _ := zzCreate(p, "A", zzSupi)
+	ue, found := chf_context.GetSelf().ChfUeFindBySupi(zzSupi)
+	if !found {
+		vx.Fail("subscriber context exists")
+		return
+	}
+	sizes := []int{5, 30000, 45000, 5, 30000}[:vx.Param("steps", 4)]
+	var reported []models.ChfConvergedChargingMultipleUnitUsage
+	for i, sz := range sizes {
+		u, _ := zzUsageInd("u"+string(rune('0'+i)), 1, 1, 1)
+		zzSmallUsage(&u)
+		// offline containers: the split logic is the subject, not credit control
+		u.UsedUnitContainer[0].QuotaManagementIndicator = models.QuotaManagementIndicator_OFFLINE_CHARGING
+		u.UPFID = zzLongString(sz)
+		reported = append(reported, u)
+		c := &gin.Context{}
+		p.HandleChargingdataUpdate(c, models.ChfConvergedChargingChargingDataRequest{SubscriberIdentifier: zzSupi,
+			MultipleUnitUsage: []models.ChfConvergedChargingMultipleUnitUsage{u}}, ref)
+		vx.Assert("update answered 200", vx.HTTPStatus(c) == 200)
+	}
+	n := 0
+	for _, r := range ue.Records {
+		if r != nil && r.ChargingFunctionRecord != nil {
+			n++
+		}
+	}
+	vx.Assert("the history made the record split at least once", n >= 2)
+	got := zzUsageList(ue, ref)
+	vx.Assert("the session's records hold exactly the reported entries", len(got) == len(reported))
+	if len(got) == len(reported) {
+		for i := range reported {
+			vx.Assert("each entry is recorded unchanged and in report order across the split", zzSameUsage(got[i], reported[i]))
+			vx.Assert("each entry keeps its own variable-length member", got[i].UPFID != nil && len(got[i].UPFID.Value) == len(reported[i].UPFID))
+		}
+	}
+}
